@@ -1,7 +1,637 @@
-/- Model `Expr` (driver token `expr`) — stub, to be filled in. -/
-namespace Stab.Expr
+/-
+  Model of `stabilize.expressions` (`evaluate_expression` / `_eval_node`), from the AST level.
 
-/-- driver entry: the rest of the request line after the model token -/
-def drive (_rest : String) : String := "unimplemented"
+  * Text → AST is CPython's `ast.parse` on both sides: the harness parses the very string it hands to
+    `evaluate_expression` and serialises that tree into the line protocol below.  What happens
+    before the tree exists (blank input, the `true/1/false/0` fast path, `SyntaxError`, or
+    `ast.parse` raising something else) is the `Parsed` classification.
+  * `Expr` has one constructor per node class `_eval_node` dispatches on, in dispatch order, plus
+    `unsupported kind` for every other class (`Call`, `Lambda`, `BinOp`, `Dict`, `Slice`, …).
+    `Props.C20.dispatch_eq_model` proves the list extracted from the source equals `supportedKinds`.
+  * `Value` = {None, bool, int, str, list, tuple, dict with string keys} — JSON documents (the stage
+    context is persisted as JSON) plus tuples, which only `Tuple` nodes create.  **Floats are
+    excluded** (also bytes / complex / Ellipsis constants); the harness keeps them out of the
+    correspondence and only monitors the outcome class for them on the Python side.
+  * Python primitives that can raise return `Option` (`none` = the one exception class that
+    primitive raises: `TypeError` for `-x`, ordering, `in`, hashing; `IndexError` for `seq[i]`).
+    `evalF` turns `none` into that class and then applies the `try/except` guards of the code,
+    which are explicit in `Guards`: `Guards.fixed` mirrors the code *with* proposed_fixes/F2.diff,
+    `Guards.current` the code without it (finding F2).
+  * Recursion depth: `fuel` = how many nested `_eval_node` frames may still be entered.  The fixed
+    code raises `ExpressionError` when `depth > _MAX_DEPTH`; the unfixed code runs into CPython's
+    recursion limit (`RecursionError`), with `fuel` = frames left on the caller's stack.
+  * Object identity (`is`) is exact when one operand is `None`/`True`/`False`; for two
+    non-singleton objects it is CPython's business and is a parameter (`Env.ident`).
+-/
+import Stab.Model.Basic
+
+namespace Stab.Expr
+open Stab
+
+/-! ### values -/
+
+inductive Value where
+  | none
+  | bool (b : Bool)
+  | int (i : Int)
+  | str (s : String)
+  | list (xs : List Value)
+  | tuple (xs : List Value)
+  | dict (kvs : List (String × Value))
+  deriving Repr, Inhabited
+
+/-- exception classes that can come out of `evaluate_expression` -/
+inductive Err where
+  | expression        -- `ExpressionError`, the evaluator's own
+  | typeError | indexError | recursionError | memoryError | valueError
+  deriving DecidableEq, Repr
+
+def Err.name : Err → String
+  | .expression => "ExpressionError" | .typeError => "TypeError" | .indexError => "IndexError"
+  | .recursionError => "RecursionError" | .memoryError => "MemoryError" | .valueError => "ValueError"
+
+def Err.ofName? (s : String) : Option Err :=
+  [Err.expression, .typeError, .indexError, .recursionError, .memoryError, .valueError].find? (fun e => e.name == s)
+
+namespace Value
+
+/-- `bool(v)` -/
+def truthy : Value → Bool
+  | .none => false
+  | .bool b => b
+  | .int i => i != 0
+  | .str s => !s.isEmpty
+  | .list xs => !xs.isEmpty
+  | .tuple xs => !xs.isEmpty
+  | .dict kvs => !kvs.isEmpty
+
+/-- `bool` is a subclass of `int`: `True == 1` -/
+def num? : Value → Option Int
+  | .bool b => some (if b then 1 else 0)
+  | .int i => some i
+  | _ => Option.none
+
+mutual
+/-- `a == b` -/
+def eq : Value → Value → Bool
+  | .none, .none => true
+  | .bool a, .bool b => a == b
+  | .bool a, .int b => (if a then 1 else 0) == b
+  | .int a, .bool b => a == (if b then 1 else 0)
+  | .int a, .int b => a == b
+  | .str a, .str b => a == b
+  | .list a, .list b => eqList a b
+  | .tuple a, .tuple b => eqList a b
+  | .dict a, .dict b => a.length == b.length && subDict a b
+  | _, _ => false
+termination_by structural a => a
+def eqList : List Value → List Value → Bool
+  | [], [] => true
+  | x :: xs, y :: ys => eq x y && eqList xs ys
+  | _, _ => false
+termination_by structural a => a
+/-- every key of `a` is in `b` with an equal value (`dict_equal`) -/
+def subDict : List (String × Value) → List (String × Value) → Bool
+  | [], _ => true
+  | (k, v) :: rest, b =>
+    (match b.lookup k with
+     | .some w => eq v w
+     | .none => false) && subDict rest b
+termination_by structural a => a
+end
+
+mutual
+/-- `hash(v)` works: no list / dict anywhere inside tuples -/
+def hashable : Value → Bool
+  | .tuple xs => hashableL xs
+  | .list _ => false
+  | .dict _ => false
+  | _ => true
+def hashableL : List Value → Bool
+  | [] => true
+  | x :: xs => hashable x && hashableL xs
+end
+
+end Value
+
+inductive OrdOp where
+  | lt | le | gt | ge
+  deriving DecidableEq, Repr
+
+def OrdOp.onInt (op : OrdOp) (a b : Int) : Bool :=
+  match op with
+  | .lt => a < b | .le => a ≤ b | .gt => a > b | .ge => a ≥ b
+
+/-- lexicographic comparison of code-point lists (what `str <` does) -/
+def cmpCodes : List Nat → List Nat → Ordering
+  | [], [] => .eq
+  | [], _ :: _ => .lt
+  | _ :: _, [] => .gt
+  | a :: as, b :: bs => if a < b then .lt else if a > b then .gt else cmpCodes as bs
+
+def OrdOp.onOrdering (op : OrdOp) (o : Ordering) : Bool :=
+  match op, o with
+  | .lt, .lt => true | .lt, _ => false
+  | .le, .gt => false | .le, _ => true
+  | .gt, .gt => true | .gt, _ => false
+  | .ge, .lt => false | .ge, _ => true
+
+def codes (s : String) : List Nat := s.toList.map Char.toNat
+
+namespace Value
+mutual
+/-- `a < b` etc.; `none` = `TypeError` ("'<' not supported between instances of …") -/
+def order (op : OrdOp) : Value → Value → Option Bool
+  | .list a, .list b => orderSeq op a b
+  | .tuple a, .tuple b => orderSeq op a b
+  | .str a, .str b => some (op.onOrdering (cmpCodes (codes a) (codes b)))
+  | .bool a, .bool b => some (op.onInt (if a then 1 else 0) (if b then 1 else 0))
+  | .bool a, .int b => some (op.onInt (if a then 1 else 0) b)
+  | .int a, .bool b => some (op.onInt a (if b then 1 else 0))
+  | .int a, .int b => some (op.onInt a b)
+  | _, _ => Option.none
+termination_by structural a => a
+/-- sequences: the first pair that is not `==` decides (with the operator itself, which may raise);
+    if there is none the lengths decide -/
+def orderSeq (op : OrdOp) : List Value → List Value → Option Bool
+  | x :: xs, y :: ys => if eq x y then orderSeq op xs ys else order op x y
+  | [], ys => some (op.onInt 0 ys.length)
+  | xs, [] => some (op.onInt xs.length 0)
+termination_by structural a => a
+end
+end Value
+
+/-- `needle in haystack` for strings (substring) -/
+def isInfix (p : List Char) : List Char → Bool
+  | [] => p.isEmpty
+  | c :: cs => p.isPrefixOf (c :: cs) || isInfix p cs
+
+/-- `a in b`; `none` = `TypeError` -/
+def contains (a b : Value) : Option Bool :=
+  match b with
+  | .list xs => some (xs.any (fun x => Value.eq x a))
+  | .tuple xs => some (xs.any (fun x => Value.eq x a))
+  | .str s =>
+    match a with
+    | .str p => some (isInfix p.toList s.toList)
+    | _ => Option.none                      -- 'in <string>' requires string as left operand
+  | .dict kvs =>
+    if a.hashable then
+      match a with
+      | .str k => some ((kvs.lookup k).isSome)
+      | _ => some false                     -- keys are strings
+    else Option.none                        -- unhashable type
+  | _ => Option.none                        -- argument of type … is not iterable
+
+/-- `operator.neg`; `none` = `TypeError` -/
+def neg : Value → Option Value
+  | .int i => some (.int (-i))
+  | .bool b => some (.int (if b then -1 else 0))
+  | _ => Option.none
+
+/-- `seq[i]` with Python's negative indices; `none` = `IndexError` -/
+def index (xs : List Value) (i : Int) : Option Value :=
+  let j := if i < 0 then i + xs.length else i
+  if j < 0 then Option.none else xs[j.toNat]?
+
+/-! ### syntax -/
+
+inductive Const where
+  | none | bool (b : Bool) | int (i : Int) | str (s : String)
+  deriving Repr
+
+def Const.toValue : Const → Value
+  | .none => .none | .bool b => .bool b | .int i => .int i | .str s => .str s
+
+inductive CmpOp where
+  | eq | ne | lt | le | gt | ge | is | isNot | in_ | notIn
+  deriving DecidableEq, Repr
+
+inductive BoolOp where
+  | and | or
+  deriving DecidableEq, Repr
+
+inductive UnOp where
+  | not | usub | uadd | invert
+  deriving DecidableEq, Repr
+
+/-- one constructor per `isinstance(node, ast.X)` branch of `_eval_node`, in source order;
+    `unsupported` is the final `raise ExpressionError("Unsupported expression node: …")` -/
+inductive Expr where
+  | const (c : Const)                                   -- ast.Constant
+  | name (id : String)                                  -- ast.Name
+  | attr (e : Expr) (a : String)                        -- ast.Attribute
+  | subscript (e : Expr) (slice : Expr)                 -- ast.Subscript
+  | compare (left : Expr) (rest : List (CmpOp × Expr))  -- ast.Compare
+  | boolOp (op : BoolOp) (vals : List Expr)             -- ast.BoolOp
+  | unary (op : UnOp) (e : Expr)                        -- ast.UnaryOp
+  | ifExp (test body orelse : Expr)                     -- ast.IfExp
+  | list (elts : List Expr)                             -- ast.List
+  | tuple (elts : List Expr)                            -- ast.Tuple
+  | unsupported (kind : String)                         -- anything else
+  deriving Repr, Inhabited
+
+/-- the ast class a constructor stands for -/
+def Expr.kind : Expr → String
+  | .const _ => "Constant" | .name _ => "Name" | .attr _ _ => "Attribute"
+  | .subscript _ _ => "Subscript" | .compare _ _ => "Compare" | .boolOp _ _ => "BoolOp"
+  | .unary _ _ => "UnaryOp" | .ifExp _ _ _ => "IfExp" | .list _ => "List" | .tuple _ => "Tuple"
+  | .unsupported k => k
+
+/-- the dispatch list of `_eval_node`, in source order (compared with the generated list in Props) -/
+def supportedKinds : List String :=
+  ["Constant", "Name", "Attribute", "Subscript", "Compare", "BoolOp", "UnaryOp", "IfExp", "List", "Tuple"]
+
+/-- what `ast.parse`/the prologue of `evaluate_expression` made of the text -/
+inductive Parsed where
+  | blank                    -- `not expression or not expression.strip()`
+  | fastTrue | fastFalse     -- `expr.lower() in ("true","1")` / `("false","0")`
+  | syntaxError              -- `ast.parse` raised `SyntaxError`
+  | parseRaised (e : Err)    -- `ast.parse` raised another class (RecursionError, MemoryError, ValueError)
+  | tree (e : Expr)
+  deriving Repr
+
+/-- the `try/except` guards of the code.  `true` = present. -/
+structure Guards where
+  compare : Bool      -- Compare: `except TypeError → ExpressionError`          (in the code today)
+  index : Bool        -- Subscript: `except IndexError → None`                   (in the code today)
+  unary : Bool        -- UnaryOp: `except TypeError → ExpressionError`           (F2.diff)
+  subscript : Bool    -- Subscript `dict.get(key)`: `except TypeError → ExpressionError` (F2.diff)
+  depth : Bool        -- `depth > _MAX_DEPTH → ExpressionError` + RecursionError backstop (F2.diff)
+  parse : Bool        -- `ast.parse`: ValueError / RecursionError / MemoryError → ExpressionError (F2.diff)
+  deriving DecidableEq, Repr
+
+def Guards.fixed : Guards := ⟨true, true, true, true, true, true⟩
+def Guards.current : Guards := ⟨true, true, false, false, false, false⟩
+
+/-- `_MAX_DEPTH` of the fixed code (compared with the generated constant in Props) -/
+def maxDepth : Nat := 200
+
+structure Env where
+  vars : List (String × Value)              -- the `context` dict
+  ident : Value → Value → Bool := fun _ _ => false   -- `a is b` for two non-singleton objects
+
+/-! ### evaluation -/
+
+def isSingleton : Value → Bool
+  | .none | .bool _ => true
+  | _ => false
+
+/-- `a is b` -/
+def isSame (ident : Value → Value → Bool) (a b : Value) : Bool :=
+  if isSingleton a || isSingleton b then
+    match a, b with
+    | .none, .none => true
+    | .bool x, .bool y => x == y
+    | _, _ => false
+  else ident a b
+
+/-- `_SAFE_OPERATORS[type(op)](left, right)`; `none` = `TypeError` -/
+def cmpOp (ident : Value → Value → Bool) (op : CmpOp) (a b : Value) : Option Bool :=
+  match op with
+  | .eq => some (Value.eq a b)
+  | .ne => some (!Value.eq a b)
+  | .lt => Value.order .lt a b
+  | .le => Value.order .le a b
+  | .gt => Value.order .gt a b
+  | .ge => Value.order .ge a b
+  | .is => some (isSame ident a b)
+  | .isNot => some (!isSame ident a b)
+  | .in_ => contains a b
+  | .notIn => (contains a b).map (!·)
+
+/-- raise `cls`, or `ExpressionError` when the corresponding `except` clause is present -/
+def raiseGuarded (guard : Bool) (cls : Err) : Except Err α :=
+  .error (if guard then .expression else cls)
+
+/-- the `ast.Name` branch -/
+def lookupName (env : Env) (id : String) : Value :=
+  if id == "True" || id == "true" then .bool true
+  else if id == "False" || id == "false" then .bool false
+  else if id == "None" || id == "none" || id == "null" then .none
+  else (env.vars.lookup id).getD .none          -- missing context keys evaluate to None
+
+/-- `[_eval_node(x) for x in xs]`: left to right, the first exception wins -/
+def evalAll (ev : Expr → Except Err Value) : List Expr → Except Err (List Value)
+  | [] => .ok []
+  | e :: es =>
+    match ev e with
+    | .error x => .error x
+    | .ok v =>
+      match evalAll ev es with
+      | .error x => .error x
+      | .ok vs => .ok (v :: vs)
+
+/-- the `for op, comparator in zip(node.ops, node.comparators)` loop -/
+def evalChain (g : Guards) (ident : Value → Value → Bool) (ev : Expr → Except Err Value) :
+    Value → List (CmpOp × Expr) → Except Err Value
+  | _, [] => .ok (.bool true)
+  | left, (op, e) :: rest =>
+    match ev e with
+    | .error x => .error x
+    | .ok right =>
+      match cmpOp ident op left right with
+      | Option.none => raiseGuarded g.compare .typeError
+      | some false => .ok (.bool false)
+      | some true => evalChain g ident ev right rest
+
+/-- the `ast.Subscript` branch after both operands are known -/
+def subscriptValue (g : Guards) (value key : Value) : Except Err Value :=
+  match value with
+  | .dict kvs =>
+    if key.hashable then
+      match key with
+      | .str k => .ok ((kvs.lookup k).getD .none)
+      | _ => .ok .none
+    else raiseGuarded g.subscript .typeError
+  | .list xs | .tuple xs =>
+    match key.num? with
+    | some i =>
+      match index xs i with
+      | some v => .ok v
+      | Option.none => if g.index then .ok .none else .error .indexError
+    | Option.none => .ok .none
+  | _ => .ok .none
+
+/-- the `ast.UnaryOp` branch after the operand is known -/
+def unaryValue (g : Guards) (op : UnOp) (v : Value) : Except Err Value :=
+  match op with
+  | .not => .ok (.bool (!v.truthy))
+  | .usub =>
+    match neg v with
+    | some r => .ok r
+    | Option.none => raiseGuarded g.unary .typeError
+  | .uadd | .invert => .error .expression        -- "Unsupported unary operator"
+
+/-- `_eval_node(node, context)` with `fuel` nested frames left -/
+def evalF (g : Guards) (env : Env) : Nat → Expr → Except Err Value
+  | 0, _ => raiseGuarded g.depth .recursionError
+  | fuel + 1, e =>
+    match e with
+    | .const c => .ok c.toValue
+    | .name id => .ok (lookupName env id)
+    | .attr e a =>
+      match evalF g env fuel e with
+      | .error x => .error x
+      | .ok (.dict kvs) => .ok ((kvs.lookup a).getD .none)
+      | .ok _ => .ok .none
+    | .subscript e s =>
+      match evalF g env fuel e with
+      | .error x => .error x
+      | .ok value =>
+        match evalF g env fuel s with
+        | .error x => .error x
+        | .ok key => subscriptValue g value key
+    | .compare l rest =>
+      match evalF g env fuel l with
+      | .error x => .error x
+      | .ok left => evalChain g env.ident (evalF g env fuel) left rest
+    | .boolOp op vals =>
+      match evalAll (evalF g env fuel) vals with
+      | .error x => .error x
+      | .ok vs =>
+        match op with
+        | .and => .ok (.bool (vs.all Value.truthy))     -- `all(values)`: no short circuit, a bool
+        | .or => .ok (.bool (vs.any Value.truthy))      -- `any(values)`
+    | .unary op e =>
+      match evalF g env fuel e with
+      | .error x => .error x
+      | .ok v => unaryValue g op v
+    | .ifExp t b o =>
+      match evalF g env fuel t with
+      | .error x => .error x
+      | .ok tv => if tv.truthy then evalF g env fuel b else evalF g env fuel o
+    | .list es =>
+      match evalAll (evalF g env fuel) es with
+      | .error x => .error x
+      | .ok vs => .ok (.list vs)
+    | .tuple es =>
+      match evalAll (evalF g env fuel) es with
+      | .error x => .error x
+      | .ok vs => .ok (.tuple vs)
+    | .unsupported _ => .error .expression
+
+/-- `evaluate_expression(text, context)`; `stack` = frames the caller's stack still allows -/
+def evaluate (g : Guards) (env : Env) (stack : Nat) : Parsed → Except Err Value
+  | .blank => .error .expression
+  | .fastTrue => .ok (.bool true)
+  | .fastFalse => .ok (.bool false)
+  | .syntaxError => .error .expression
+  | .parseRaised cls => raiseGuarded g.parse cls
+  | .tree e => evalF g env (if g.depth then min (maxDepth + 1) stack else stack) e
+
+/-- the model of record: the code with F2.diff applied, on an ordinary stack -/
+def eval (e : Expr) (env : Env) : Except Err Value := evalF .fixed env (maxDepth + 1) e
+
+/-! ### the two callers -/
+
+inductive SplitOutcome where
+  | activate | skip
+  deriving DecidableEq, Repr
+
+/-- `_apply_split_logic`, per downstream: `except ExpressionError → skipped`; anything else propagates -/
+def splitBranch (r : Except Err Value) : Except Err SplitOutcome :=
+  match r with
+  | .ok v => .ok (if v.truthy then .activate else .skip)
+  | .error .expression => .ok .skip
+  | .error x => .error x
+
+/-- `_should_skip` on an expression-typed `stageEnabled`: `except ExpressionError → False` (not skipping) -/
+def shouldSkip (r : Except Err Value) : Except Err Bool :=
+  match r with
+  | .ok v => .ok (!v.truthy)
+  | .error .expression => .ok false
+  | .error x => .error x
+
+/-! ### driver
+  `expr <guards:6 bits> <stack> <ident 0|1|x> <nvars> (key value)* <parsed>` — everything is a prefix
+  token stream.  values: `N T F i<int> s<cp.cp…> L <n> … U <n> … D <n> (s<key> value)*`;
+  expressions: `c <const>` `n s<id>` `a <e> s<attr>` `sub <e> <e>` `cmp <k> <e> (<op> <e>)*`
+  `and|or <k> <e>*` `not|neg|pos|inv <e>` `if <e> <e> <e>` `list|tup <k> <e>*` `x <Kind>`;
+  parsed: `blank` `fast1` `fast0` `syntax` `raised <Class>` or an expression.
+  Output: `v <value>` or `err <Class>`. -/
+
+abbrev Toks := List String
+
+def parseStr (t : String) : Option String :=
+  if t.startsWith "s" then
+    let body := (t.drop 1).toString
+    if body.isEmpty then some ""
+    else (Parse.all? Parse.nat? (body.splitOn ".")).map (fun cps => String.ofList (cps.map Char.ofNat))
+  else Option.none
+
+def parseMany {α} (p : Toks → Option (α × Toks)) : Nat → Toks → Option (List α × Toks)
+  | 0, ts => some ([], ts)
+  | n + 1, ts => do
+    let (a, ts) ← p ts
+    let (as, ts) ← parseMany p n ts
+    pure (a :: as, ts)
+
+def parseValue : Nat → Toks → Option (Value × Toks)
+  | 0, _ => Option.none
+  | fuel + 1, t :: ts =>
+    if t == "N" then some (.none, ts)
+    else if t == "T" then some (.bool true, ts)
+    else if t == "F" then some (.bool false, ts)
+    else if t.startsWith "i" then (Parse.int? (t.drop 1).toString).map (fun i => (.int i, ts))
+    else if t.startsWith "s" then (parseStr t).map (fun s => (.str s, ts))
+    else if t == "L" || t == "U" then
+      match ts with
+      | n :: ts => do
+        let (vs, ts) ← parseMany (parseValue fuel) (← Parse.nat? n) ts
+        pure (if t == "L" then .list vs else .tuple vs, ts)
+      | [] => Option.none
+    else if t == "D" then
+      match ts with
+      | n :: ts => do
+        let (kvs, ts) ← parseMany (fun ts => match ts with
+          | k :: ts => do
+            let key ← parseStr k
+            let (v, ts) ← parseValue fuel ts
+            pure ((key, v), ts)
+          | [] => Option.none) (← Parse.nat? n) ts
+        pure (.dict kvs, ts)
+      | [] => Option.none
+    else Option.none
+  | _ + 1, [] => Option.none
+
+def parseCmpOp : String → Option CmpOp
+  | "eq" => some .eq | "ne" => some .ne | "lt" => some .lt | "le" => some .le | "gt" => some .gt
+  | "ge" => some .ge | "is" => some .is | "isnot" => some .isNot | "in" => some .in_ | "notin" => some .notIn
+  | _ => Option.none
+
+def parseConst (ts : Toks) : Option (Const × Toks) :=
+  match ts with
+  | t :: ts =>
+    if t == "N" then some (.none, ts)
+    else if t == "T" then some (.bool true, ts)
+    else if t == "F" then some (.bool false, ts)
+    else if t.startsWith "i" then (Parse.int? (t.drop 1).toString).map (fun i => (.int i, ts))
+    else if t.startsWith "s" then (parseStr t).map (fun s => (.str s, ts))
+    else Option.none
+  | [] => Option.none
+
+def parseExpr : Nat → Toks → Option (Expr × Toks)
+  | 0, _ => Option.none
+  | _ + 1, [] => Option.none
+  | fuel + 1, t :: ts =>
+    let pe := parseExpr fuel
+    match t with
+    | "c" => (parseConst ts).map (fun (c, ts) => (.const c, ts))
+    | "n" =>
+      match ts with
+      | s :: ts => (parseStr s).map (fun id => (.name id, ts))
+      | [] => Option.none
+    | "a" => do
+      let (e, ts) ← pe ts
+      match ts with
+      | s :: ts => (parseStr s).map (fun a => (.attr e a, ts))
+      | [] => Option.none
+    | "sub" => do
+      let (e, ts) ← pe ts
+      let (s, ts) ← pe ts
+      pure (.subscript e s, ts)
+    | "cmp" =>
+      match ts with
+      | n :: ts => do
+        let (l, ts) ← pe ts
+        let (rest, ts) ← parseMany (fun ts => match ts with
+          | o :: ts => do
+            let op ← parseCmpOp o
+            let (e, ts) ← pe ts
+            pure ((op, e), ts)
+          | [] => Option.none) (← Parse.nat? n) ts
+        pure (.compare l rest, ts)
+      | [] => Option.none
+    | "and" | "or" | "list" | "tup" =>
+      match ts with
+      | n :: ts => do
+        let (es, ts) ← parseMany pe (← Parse.nat? n) ts
+        let e := if t == "and" then Expr.boolOp .and es else if t == "or" then .boolOp .or es
+                 else if t == "list" then .list es else .tuple es
+        pure (e, ts)
+      | [] => Option.none
+    | "not" => (pe ts).map (fun (e, ts) => (.unary .not e, ts))
+    | "neg" => (pe ts).map (fun (e, ts) => (.unary .usub e, ts))
+    | "pos" => (pe ts).map (fun (e, ts) => (.unary .uadd e, ts))
+    | "inv" => (pe ts).map (fun (e, ts) => (.unary .invert e, ts))
+    | "if" => do
+      let (a, ts) ← pe ts
+      let (b, ts) ← pe ts
+      let (c, ts) ← pe ts
+      pure (.ifExp a b c, ts)
+    | "x" =>
+      match ts with
+      | k :: ts => some (.unsupported k, ts)
+      | [] => Option.none
+    | _ => Option.none
+
+def parseParsed (ts : Toks) : Option Parsed :=
+  match ts with
+  | ["blank"] => some .blank
+  | ["fast1"] => some .fastTrue
+  | ["fast0"] => some .fastFalse
+  | ["syntax"] => some .syntaxError
+  | ["raised", c] => (Err.ofName? c).map .parseRaised
+  | ts =>
+    match parseExpr (ts.length + 1) ts with
+    | some (e, []) => some (.tree e)
+    | _ => Option.none
+
+def showStr (s : String) : String :=
+  "s" ++ Parse.joinWith "." ((codes s).map toString)
+
+mutual
+def showValue : Value → String
+  | .none => "N"
+  | .bool true => "T"
+  | .bool false => "F"
+  | .int i => s!"i{i}"
+  | .str s => showStr s
+  | .list xs => s!"L {xs.length}" ++ showValues xs
+  | .tuple xs => s!"U {xs.length}" ++ showValues xs
+  | .dict kvs => s!"D {kvs.length}" ++ showPairs kvs
+def showValues : List Value → String
+  | [] => ""
+  | x :: xs => " " ++ showValue x ++ showValues xs
+def showPairs : List (String × Value) → String
+  | [] => ""
+  | (k, v) :: rest => " " ++ showStr k ++ " " ++ showValue v ++ showPairs rest
+end
+
+def parseGuards (s : String) : Option Guards :=
+  match s.toList with
+  | [a, b, c, d, e, f] => do
+    let bit (c : Char) : Option Bool := if c == '1' then some true else if c == '0' then some false else Option.none
+    pure ⟨← bit a, ← bit b, ← bit c, ← bit d, ← bit e, ← bit f⟩
+  | _ => Option.none
+
+/-- `ident`: `0`/`1` = answer of `is` on two non-singleton objects; `x` = the case evaluates such an
+    `is` (CPython-specific), so only the outcome class is printed -/
+def parseRequest (rest : String) : Option (Guards × Env × Nat × Parsed × Bool) :=
+  match rest.splitOn " " with
+  | gs :: stack :: ident :: nvars :: ts => do
+    let g ← parseGuards gs
+    let stack ← Parse.nat? stack
+    let classOnly := ident == "x"
+    let idb ← if classOnly then some false else Parse.bool? ident
+    let n ← Parse.nat? nvars
+    let (vars, ts) ← parseMany (fun ts => match ts with
+      | k :: ts => do
+        let key ← parseStr k
+        let (v, ts) ← parseValue (ts.length + 1) ts
+        pure ((key, v), ts)
+      | [] => Option.none) n ts
+    let p ← parseParsed ts
+    pure (g, { vars := vars, ident := fun _ _ => idb }, stack, p, classOnly)
+  | _ => Option.none
+
+def drive (rest : String) : String :=
+  match parseRequest rest with
+  | some (g, env, stack, p, classOnly) =>
+    match evaluate g env stack p with
+    | .ok v => if classOnly then "v ?" else "v " ++ showValue v
+    | .error e => "err " ++ e.name
+  | Option.none => "bad-request"
 
 end Stab.Expr
